@@ -262,9 +262,25 @@ pub fn backed_vec<T>(store: &mut core::mem::ManuallyDrop<[T; 2]>, len: usize) ->
     if len == 0 {
         return Vec::new();
     }
+    // Native replay (`--cfg verif_playback`, set by /verif/check for `cargo kani playback`): an
+    // ordinary heap vector, so that unwinding after a reproduced failure frees nothing invalid.
+    #[cfg(verif_playback)]
+    {
+        let mut v = Vec::with_capacity(2);
+        let mut i = 0;
+        while i < len {
+            // SAFETY: the array is ManuallyDrop and never read again through `store`
+            v.push(unsafe { core::ptr::read(&store[i]) });
+            i += 1;
+        }
+        return v;
+    }
     // SAFETY (harness-only): the array outlives every use of the vector, the vector is never
     // grown or dropped (the artefact holding it is forgotten at the end of the harness).
-    unsafe { Vec::from_raw_parts(store.as_mut_ptr(), len, 2) }
+    #[cfg(not(verif_playback))]
+    unsafe {
+        Vec::from_raw_parts(store.as_mut_ptr(), len, 2)
+    }
 }
 
 /// Per-subtree prefix lengths recorded while building (for the mask oracle).
